@@ -214,7 +214,6 @@ impl Memory {
       proof { assert(st@.bytes.subrange(0, allocated as int) =~= old(st)@.bytes.subrange(0, allocated as int)); }
 //@@end
 //@@fn file=memory.rs scope="impl<R: RefCounter, PR: PathRefCounter, H: Header> Memory<R, PR, H> {" name=truncate nth=2 rename=truncate__memmap xlate=plain st=mut props=C18
-//@subst /-> \(r: std::io::Result<\(\)>\)/ => -> (r: Result<(), IoError>)
 //@subst /st: &mut St, / => st: &mut St, os: &mut FileSt, 
 //@subst /match &mut self\.backend \{/ => match self.kind {
 //@subst /MemoryBackend::Vec\(aligned_vec, _\) => \{/ => BackendKind::Vec => {
